@@ -3,6 +3,7 @@ package main
 import (
 	"crypto/ed25519"
 	"crypto/sha512"
+	"encoding/hex"
 	"encoding/json"
 	"fmt"
 	"os"
@@ -292,6 +293,30 @@ func (w *world) c09Forgeries(byName map[string]c09tx) []forgery {
 	s3 := other
 	s3.Blob = st.Blob
 	fs = append(fs, forgery{Name: "substitute:body-under-other-envelope", Raw: cbor.Marshal(s3)})
+	// small-order signer keys with signatures R = small-order point, S = 0 (valid for any message
+	// under a verifier that accepts small-order keys)
+	smallOrder := []string{
+		"0100000000000000000000000000000000000000000000000000000000000000",
+		"ecffffffffffffffffffffffffffffffffffffffffffffffffffffffffffffff7f",
+		"0000000000000000000000000000000000000000000000000000000000000000",
+		"0000000000000000000000000000000000000000000000000000000000000080",
+		"c7176a703d4dd84fba3c0b760d10670f2a2053fa2c39ccc64ec7fd7792ac037a",
+		"c7176a703d4dd84fba3c0b760d10670f2a2053fa2c39ccc64ec7fd7792ac03fa",
+		"26e8958fc2b227b045c3f489f2ef98f0d5dfac05d3c63339b13802886d53fc05",
+		"26e8958fc2b227b045c3f489f2ef98f0d5dfac05d3c63339b13802886d53fc85",
+	}
+	zeroNonceTx := transaction.NewTransaction(0, nil, staking.MethodTransfer, staking.Transfer{To: chain.Addr(w.keys.Accounts[1]), Amount: qq(0)})
+	for ai, ah := range smallOrder {
+		for ri, rh := range smallOrder {
+			var s transaction.SignedTransaction
+			s.Blob = cbor.Marshal(zeroNonceTx)
+			ab, _ := hex.DecodeString(ah)
+			rb, _ := hex.DecodeString(rh)
+			copy(s.Signature.PublicKey[:], ab)
+			copy(s.Signature.Signature[:32], rb)
+			fs = append(fs, forgery{Name: fmt.Sprintf("small-order:A%d,R%d", ai, ri), Raw: cbor.Marshal(s)})
+		}
+	}
 	// cross-context signatures with the genuine key
 	us, ok := w.keys.Accounts[0].(signature.UnsafeSigner)
 	if !ok {
